@@ -40,7 +40,14 @@ def unchecked_accessors(ctx):
             continue
         ins = f["sig"]["inputs"]
         if len(ins) == 2 and ins[1].get("k") == "uint" and f["sig"]["output"].get("s") != "()":
-            out.add(f["path"])
+            # ... and it does address an element of a vector's storage with that parameter (a slot pointer or a view), which
+            # an unsafe helper of a storage backend with the same signature (fn(&self, new_size) -> NonNull<u8>) does not
+            touches = False
+            for tt, I in ctx.arms(f["path"]) or []:
+                if I.all_effects(("PTR", "VIEW")):
+                    touches = True
+            if touches:
+                out.add(f["path"])
     return out
 
 
